@@ -178,9 +178,19 @@ pub fn install_quiet_panic_hook() {
             .location()
             .map(|l| format!("{}:{}", l.file(), l.line()))
             .unwrap_or_default();
+        if let Ok(mut g) = LAST_PANIC_ANY.try_lock() {
+            *g = format!("{} @ {}", msg, loc);
+        }
         LAST_PANIC.with(|p| *p.borrow_mut() = Some(format!("{} @ {}", msg, loc)));
     }));
 }
+
+/// The message of the latest panic seen on any thread (for infrastructure reports).
+pub fn last_panic_message() -> String {
+    LAST_PANIC_ANY.lock().map(|g| g.clone()).unwrap_or_default()
+}
+
+static LAST_PANIC_ANY: Mutex<String> = Mutex::new(String::new());
 
 /// Runs `f`, turning a panic into `Err(message @ file:line)`.
 pub fn catch<R>(f: impl FnOnce() -> R) -> Result<R, String> {
